@@ -715,6 +715,15 @@ def rule_no_plan(ck, facts):
     ck.floor(R, "plan_builders_answering_none", found, 1)
 
 
+def _leaves_of(e, out):
+    if isinstance(e, tuple):
+        if len(e) == 2 and e[0] == "arg" and isinstance(e[1], int):
+            out.add(e[1])
+            return
+        for x in e:
+            _leaves_of(x, out)
+
+
 def rule_source_size(ck, facts):
     """the runtimes size their state storage lazily (first dsp call); a migration may be requested before that"""
     from ..rules.guards import Terms, strip
@@ -737,6 +746,7 @@ def rule_source_size(ck, facts):
         dom = dominators(f)
         ok = False
         detail = None
+        wrong_side = None
         for b2, t2 in f.calls():
             c2 = callee(t2) or ""
             if c2.split("::")[-1] != "resize" or "Vec" not in c2 or len(t2[5]) < 2:
@@ -765,6 +775,19 @@ def rule_source_size(ck, facts):
                 break
             if not from_total:
                 continue
+            # whose layout: the size must be computed from the running side (argument 1 = self) only
+            sxp = SymEx(f, max_paths=300, max_steps=30000, facts=facts)
+            try:
+                pp = sxp.run(0, stop_at_call=lambda n_, tt, t2=t2: tt is t2)
+            except PathLimit:
+                pp = sxp.paths
+            sides = set()
+            for p_ in pp:
+                if p_.end == "stopcall":
+                    _leaves_of(p_.events[-1][2][1], sides)
+            if sides and sides != {1}:
+                wrong_side = (f, t2, sorted(map(str, sides)))
+                continue
             if b2 in dom.get(b, ()):
                 ok, detail = True, "unconditional resize"
                 break
@@ -778,6 +801,9 @@ def rule_source_size(ck, facts):
             if ok:
                 break
         key = "source|%s" % f.short.split("::")[-1]
+        if not ok and wrong_side is not None and wrong_side[0] is f:
+            ck.bad(R, key, "%s pads the old state buffer to a size that is not computed from the running program's layout alone (the size reads arguments %s; self = 1, incoming = 2): when the edit shrinks the layout and the old storage is not fully grown yet (a swap before the first dsp call, or a trailing cell in a branch not yet taken), the buffer stays shorter than the old layout and apply_patches reads past it" % (f.short, wrong_side[2]), f.where(wrong_side[1]))
+            continue
         if ok:
             ck.ok(R, key, {"fn": f.short, "old_buffer": detail})
         else:
